@@ -3,13 +3,16 @@ Model of `/repo/dnsrocks/db/wrs.go` (weighted random sample of A / AAAA records)
 
 The model is generic in the key type `κ`: the theorems (Props/C11) take an arbitrary linear order
 with a least element `zero`; the driver instantiates `κ := Float` and computes the keys with the
-same expression as the Go code. The only operations the code performs on keys are `<`, `>` and
-`> 0.0`, all expressed here through `<`.
+same expression as the Go code. The only operations the code performs on keys are `<` and `>`,
+both expressed here through `<`.
 
 Go code transcribed (quirks kept):
 
 * `Add` rejects every type but A (1) and AAAA (28) *before* drawing a random number.
-* the per-family counter is a `uint32` (wraps at 2^32) and counts every candidate, kept or not.
+* a record with `Weight == 0` is counted in its family's counter and otherwise ignored: no random
+  number is drawn, no key computed, the slice is not touched.
+* the per-family counter is a `uint32` (wraps at 2^32) and counts every candidate, kept or not,
+  of any weight.
 * `MaxAnswers == 1`  → `checkAndReplaceRecord`: append to an empty slice, else overwrite slot 0 iff
   the new key is strictly larger (`wrsItem.Key > items[0].Key`); a newcomer loses ties.
 * otherwise → `addRecord`: append while `len(items) < MaxAnswers` (an `int`; for `MaxAnswers ≤ 0`
@@ -17,7 +20,7 @@ Go code transcribed (quirks kept):
   `if v.Key < minKey { minKey = v.Key; idx = i }`, i.e. find the FIRST slot holding the smallest
   kept key provided that key is strictly below the new key, and overwrite that slot.
 * `record`: `localRand.Shuffle` (an arbitrary permutation of the kept items: NOT modelled, the
-  answer is compared as a set) and then only items with `Key > 0.0` are emitted.
+  answer is compared as a set) and then EVERY kept item is emitted, whatever its key.
 * `WeightedAnswer`: `V4Count > 1 || V6Count > 1`.
 -/
 
@@ -71,36 +74,40 @@ inductive Err where
   | unsupportedType
 deriving Repr, DecidableEq
 
-/-- `Wrs.Add`; `key` is the value of `math.Pow(u·(1/MaxUint32), 1/weight)` drawn for this record
-(drawn only if the type is supported) -/
-def State.add (w : State κ α) (qtype : Nat) (new : Item κ α) : Except Err (State κ α) :=
+/-- `Wrs.Add`; `weight` is `rec.Weight`, `new.key` the value of
+`math.Pow(u·(1/MaxUint32), 1/weight)` drawn for this record (drawn, and looked at, only if the type
+is supported and the weight is not 0) -/
+def State.add (w : State κ α) (qtype : Nat) (weight : Nat) (new : Item κ α) :
+    Except Err (State κ α) :=
   if qtype ≠ typeA ∧ qtype ≠ typeAAAA then .error .unsupportedType
+  else if weight = 0 then
+    if qtype = typeA then .ok { w with v4Count := (w.v4Count + 1) % 4294967296 }
+    else .ok { w with v6Count := (w.v6Count + 1) % 4294967296 }
   else if qtype = typeA then
     .ok { w with v4Count := (w.v4Count + 1) % 4294967296, v4 := addFam w.maxAnswers w.v4 new }
   else
     .ok { w with v6Count := (w.v6Count + 1) % 4294967296, v6 := addFam w.maxAnswers w.v6 new }
 
-/-- the emission loop of `Wrs.record` after the shuffle: items with `Key > 0.0` -/
-def emit (zero : κ) (items : List (Item κ α)) : List (Item κ α) :=
-  items.filter (fun it => zero < it.key)
-
-/-- `ARecord` (up to the order of the result) -/
-def State.aRecord (zero : κ) (w : State κ α) : List (Item κ α) := emit zero w.v4
+/-- `ARecord` (up to the order of the result): the emission loop of `Wrs.record` after the shuffle
+emits every kept item -/
+def State.aRecord (w : State κ α) : List (Item κ α) := w.v4
 /-- `AAAARecord` (up to the order of the result) -/
-def State.aaaaRecord (zero : κ) (w : State κ α) : List (Item κ α) := emit zero w.v6
+def State.aaaaRecord (w : State κ α) : List (Item κ α) := w.v6
 
 /-- `WeightedAnswer` -/
 def State.weightedAnswer (w : State κ α) : Bool := decide (w.v4Count > 1) || decide (w.v6Count > 1)
 
-/-- a candidate as the callers present it: record type, drawn key, payload -/
+/-- a candidate as the callers present it: record type, weight, drawn key (meaningless for
+weight 0: nothing is drawn), payload -/
 structure Cand (κ α : Type) where
   qtype : Nat
+  weight : Nat
   item : Item κ α
 
 /-- the callers' loop (`FindAnswer.parseResult`, `AdditionalSectionForRecords.parseRecord`):
 `Add` for every candidate, an error leaves the state unchanged (it is logged) -/
 def run (maxAnswers : Int) (cands : List (Cand κ α)) : State κ α :=
-  cands.foldl (fun w c => match w.add c.qtype c.item with
+  cands.foldl (fun w c => match w.add c.qtype c.weight c.item with
     | .ok w' => w'
     | .error _ => w) { maxAnswers := maxAnswers }
 
